@@ -1021,6 +1021,10 @@ func sysCases() []sysCase {
 			&valgen.GT{Name: "ustruct", Names: []string{"a", "b", "c"}, Elems: []*valgen.GT{gk("int"), gt("string"), gt("bytes")}},
 			&valgen.GT{Name: "ustruct", Names: []string{"c", "a"}, Elems: []*valgen.GT{gt("bytes"), ptr(gk("int"))}},
 			&valgen.GT{Name: "ustruct", Names: []string{"b", "zz"}, Elems: []*valgen.GT{gt("string"), gk("int")}},
+			// every field named by the type, no unnamed []byte: short values (KF-C04-7) are spec-backed
+			&valgen.GT{Name: "ustruct", Names: []string{"a", "b"}, Elems: []*valgen.GT{gk("int"), gt("string")}},
+			&valgen.GT{Name: "ustruct", Names: []string{"c", "b", "a"}, Elems: []*valgen.GT{ptr(gt("bytes")), ptr(gt("string")), gk("int64")}},
+			&valgen.GT{Name: "ustruct", Names: []string{"b", "c"}, Elems: []*valgen.GT{gt("nstring"), gt("nbytes")}},
 			gt("struct", gt("string"), gk("int")))},
 	}
 }
@@ -1047,6 +1051,14 @@ func (g *gen) sysCell(proto int, t *typeDesc, k byte, i int) cell {
 			c.fields = append(c.fields, item(e))
 		}
 		return c
+	}
+	if t.kind == 'u' && k == 'V' && i%2 == 1 && len(t.sub) > 1 {
+		// a value written before the type's last fields were added: 1 .. n-1 fields (null / empty / a value each)
+		var w enc
+		for _, e := range t.sub[:1+g.r.Intn(len(t.sub)-1)] {
+			w.bytes(g.fieldFor(proto, e))
+		}
+		return cell{kind: 'b', b: w.b}
 	}
 	f := item(t)
 	if f.null {
